@@ -58,6 +58,8 @@ class Response:
         """Classify a run that did not finish cleanly; None if it did."""
         if self.viol is not None:
             return self.viol[0]
+        if self.exit == 78:
+            return "valgrind"
         if self.sig:
             return "signal:%d" % self.sig
         if self.exit == 77:
@@ -87,8 +89,9 @@ def parse_event(line):
 
 
 class Zsim:
-    def __init__(self, exe, tests_dir=None, tmpdir=None, extra_env=None):
+    def __init__(self, exe, tests_dir=None, tmpdir=None, extra_env=None, wrapper=None):
         self.exe = exe
+        self.wrapper = wrapper or []
         self.extra_env = extra_env
         self.slow = None
         self.own_tmp = tmpdir is None
@@ -126,7 +129,7 @@ class Zsim:
                 except (ValueError, OSError):
                     pass
 
-        self.proc = subprocess.Popen([self.exe], stdin=subprocess.PIPE, stdout=subprocess.PIPE,
+        self.proc = subprocess.Popen(self.wrapper + [self.exe], stdin=subprocess.PIPE, stdout=subprocess.PIPE,
                                      stderr=self.errlog, env=self.env, bufsize=1 << 16,
                                      preexec_fn=limits)
         line = self.proc.stdout.readline()
